@@ -73,6 +73,7 @@ M = [
     ("c14_terminate_assert", "C14 C12", "broker/backend.go", "\tsess, _ := client.Session().(*memorySession)\n\n\t// release session if available", "\tsess := client.Session().(*memorySession)\n\n\t// release session if available"),
     ("c14_terminate_only_clean", "C14", "broker/client.go", "\tif atomic.LoadUint32(&c.state) >= clientConnected {\n\t\terr := c.backend.Terminate(c)", "\tif atomic.LoadUint32(&c.state) > clientConnected {\n\t\terr := c.backend.Terminate(c)"),
     ("c14_closed_only_connected", "C14", "broker/client.go", "\t\t// close channel\n\t\tclose(c.closed)", "\t\t// close channel\n\t\tif atomic.LoadUint32(&c.state) >= clientConnected {\n\t\t\tclose(c.closed)\n\t\t}"),
+    ("c14_dequeuer_no_token_timeout", "C14", "broker/client.go", "\t\t\tcase <-c.dequeueTokens:\n\t\t\t\t// continue\n\t\t\tcase <-time.After(c.TokenTimeout):\n\t\t\t\treturn c.die(ClientError, ErrTokenTimeout)\n", "\t\t\tcase <-c.dequeueTokens:\n\t\t\t\t// continue\n"),
     # ---- C15
     ("c15_store_map_order", "C15", "session/packet_store.go", "\t\treturn s.order[a] < s.order[b]\n", "\t\treturn false && s.order[a] < s.order[b]\n"),
     ("c15_two_dequeuers", "C15", "broker/client.go", "\tc.tomb.Go(c.dequeuer)\n", "\tc.tomb.Go(c.dequeuer)\n\tc.tomb.Go(c.dequeuer)\n"),
